@@ -445,7 +445,7 @@ fn gc_report() -> J {
     let (n, list) = verif::uses_after_reclaim();
     let uar: Vec<J> = list
         .iter()
-        .map(|u| json!({"type": short_type(u.type_name), "allocated_at": u.allocated_at, "used_at": u.used_at}))
+        .map(|u| json!({"type": short_type(u.type_name), "allocated_at": u.allocated_at, "used_at": u.used_at, "what": u.what}))
         .collect();
     let mon = SIM.with(|s| {
         let s = s.borrow();
@@ -619,7 +619,9 @@ fn run_scenario(sc: &J) -> J {
             }));
             let events = SIM.with(|s| std::mem::take(&mut s.borrow_mut().events));
             let outcome = match r {
-                Ok(Some(Ok(v))) => json!({"ok": true, "value": format!("{}", v)}),
+                // (the value handed back is whatever lay below the result on the value stack - the function object or
+                // its last argument - and its text contains an address: not reported)
+                Ok(Some(Ok(_))) => json!({"ok": true}),
                 Ok(Some(Err(e))) => json!({"err": format!("{:?}", e.kind()), "messages": e.messages()}),
                 Ok(None) => json!({"no_such_function": name}),
                 Err(p) => json!({"panic": panic_msg(p)}),
